@@ -180,7 +180,7 @@ func (c *Check) respondRules(prefix string) {
 			if !(len(k) == 3 && k[0].String() == "(.Request.Consumer "+R+")" && k[1].String() == "(.Request.ServiceName "+R+")" && (k[2].String() == prov || k[2].String() == "(.Request.Provider "+R+")")) {
 				add("volume", "request volume key "+fmtTerms(k)+" is not (R.Consumer, R.ServiceName, provider)", pa)
 			}
-			if !strings.Contains(set17[0].Val.String(), "(+ (keeper.Keeper.GetRequestVolume") && !strings.Contains(set17[0].Val.String(), "(+ ") {
+			if !strings.Contains(set17[0].Val.String(), "(+ ("+c.nVolume()) {
 				add("volume", "request volume is not incremented by one", pa)
 			}
 		}
@@ -370,7 +370,7 @@ func (c *Check) earnRules(prefix string) {
 		}
 		// both records grow by the same remainder
 		for _, e := range set18 {
-			if !strings.Contains(e.Val.String(), "(sdk.Coins.Add (res 0 (keeper.Keeper.GetEarnedFees "+provP+")) (spread "+earned+"))") {
+			if !strings.Contains(e.Val.String(), "(sdk.Coins.Add (res 0 ("+c.nEarned()+" "+provP+")) (spread "+earned+"))") {
 				add("provider-record", "provider earnings are not old + (fee − tax): "+shortTerm(e.Val), pa)
 			}
 			if k := keyArgs(e); len(k) < 1 || !k[0].IsAt(provP) {
@@ -382,7 +382,7 @@ func (c *Check) earnRules(prefix string) {
 			owner = fmt.Sprintf("(res 0 (%s %s))", gOwner.Name, provP)
 		}
 		for _, e := range set19 {
-			if !strings.Contains(e.Val.String(), "(sdk.Coins.Add (res 0 (keeper.Keeper.GetOwnerEarnedFees "+owner+")) (spread "+earned+"))") {
+			if !strings.Contains(e.Val.String(), "(sdk.Coins.Add (res 0 ("+c.nOwnerEarned()+" "+owner+")) (spread "+earned+"))") {
 				add("owner-record", "owner earnings are not old + the same (fee − tax): "+shortTerm(e.Val), pa)
 			}
 			if k := keyArgs(e); len(k) < 1 || k[0].String() != owner {
@@ -456,8 +456,8 @@ func (c *Check) withdrawRules(prefix string) {
 		c.undecided(prefix+".withdraw", f.Name, f.Body.Pos(), "owner/provider parameters not identified")
 		return
 	}
-	E := fmt.Sprintf("(res 0 (keeper.Keeper.GetEarnedFees %s))", provP)
-	T := fmt.Sprintf("(res 0 (keeper.Keeper.GetOwnerEarnedFees %s))", ownerP)
+	E := fmt.Sprintf("(res 0 (%s %s))", c.nEarned(), provP)
+	T := fmt.Sprintf("(res 0 (%s %s))", c.nOwnerEarned(), ownerP)
 	bad := map[string][]string{}
 	add := func(k, msg string, pa *Path) { bad[k] = append(bad[k], msg+" (path ending "+c.pos(pa.RetPos)+")") }
 	nProv, nOwner := 0, 0
@@ -490,7 +490,7 @@ func (c *Check) withdrawRules(prefix string) {
 			add("single-payout", "no payout on a committed path", pa)
 			continue
 		}
-		if pay.To.String() != fmt.Sprintf("(keeper.Keeper.GetWithdrawAddress %s)", ownerP) {
+		if pay.To.String() != fmt.Sprintf("(%s %s)", c.nWithdrawAddr(), ownerP) {
 			add("recipient", "payout goes to "+shortTerm(pay.To)+" — not the owner's withdrawal address", pa)
 		}
 		_, provBranch := hasFact(af, "(nonempty "+provP+")", false)
@@ -563,7 +563,7 @@ func (c *Check) withdrawRules(prefix string) {
 	}
 	c.req(nProv >= 2 && nOwner >= 1, prefix+".withdraw.paths", unitConstruct(f, "paths"), f.Body.Pos(), fmt.Sprintf("provider-branch paths ×%d, owner-branch paths ×%d", nProv, nOwner))
 	// GetWithdrawAddress: stored value, else the owner
-	if g := c.P.FuncNamed("keeper.Keeper.GetWithdrawAddress"); g != nil {
+	if g := c.P.FuncNamed(c.nWithdrawAddr()); g != nil {
 		okStored, okDefault := false, false
 		for _, pa := range c.P.PathsOf(g) {
 			if len(pa.Ret) != 1 {
